@@ -57,6 +57,23 @@ impl DiagnosticManager {
         });
     }
 
+    /// Drop what is said about unreachable instructions beyond that nothing
+    /// reaches them: their values, stack positions and ecall numbers are those
+    /// of code that never runs.
+    pub fn drop_secondary_on(&mut self, unreachable: &[(uuid::Uuid, crate::parser::Range)]) {
+        self.diagnostics.retain(|diagnostic| {
+            if diagnostic.get_error_code() == "unreachable-code" {
+                return true;
+            }
+            let start = diagnostic.range().start().raw_index();
+            !unreachable.iter().any(|(file, range)| {
+                *file == diagnostic.file()
+                    && range.start().raw_index() <= start
+                    && start <= range.end().raw_index()
+            })
+        });
+    }
+
     pub fn iter(&self) -> std::slice::Iter<Box<dyn IsSomeDisplayableDiagnostic>> {
         self.diagnostics.iter()
     }
